@@ -115,7 +115,14 @@ ROUND3B = {
     "C18": " makeBackupFor_not_regular (fix D106), makeBackupFor_missing_replaces (fix D101); sections with two hunks (seeded change C18-m4).",
     "C20": " unterminated_line_then_directive, C20_merge_bytes (fix D97).",
 }
+ROUND4 = {
+    "C10": " Round four: standard input delivered in pieces (short reads on fd 0; scenario two-files-stdin-in-pieces, seeded change C10-m5).",
+    "C18": " Round four: C18_run_delete_backup (_gen/_name/_stamped/_dry): the removal of a file with --backup, end to end about runPatch - the backup holds the "
+           "pre-patch bytes and mode, the file is gone, nothing else changes, one rename and no unlink.",
+}
 for k, v in ROUND3B.items():
+    ROUND3[k] = ROUND3.get(k, "") + v
+for k, v in ROUND4.items():
     ROUND3[k] = ROUND3.get(k, "") + v
 for k, v in ROUND3.items():
     ADDED[k] = ADDED.get(k, "") + v
